@@ -400,7 +400,7 @@ def main(run):
                               "omismatches", "ocase", shard=40)
     verdicts = dict(mism)
     reported = 0
-    for idx, v in mism:
+    for idx, v in sorted(mism, key=lambda iv: (iv[1] != 2, iv[0])):
         if v in (1, 2, 4) and reported < 5:
             pkg, sd = index[idx]
             o = obs[(pkg["name"], sd["name"])]
